@@ -49,6 +49,9 @@ func Sleep(d time.Duration) {
 // fires when nothing else can move (earliest deadline first), the function of AfterFunc then runs as a thread of
 // its own, exactly as the runtime would run it in a goroutine of its own. Outside a controlled execution it is
 // a real timer.
+// Horizon: timers, sleeps and AfterFuncs armed for longer than this do not fire inside a controlled execution.
+var Horizon = 366 * 24 * time.Hour
+
 type Timer struct {
 	C  <-chan time.Time
 	c  chan time.Time
@@ -72,6 +75,15 @@ func (t *Timer) arm(d time.Duration) {
 		return
 	}
 	due := vclock.Now().Add(d).UnixNano()
+	if d > Horizon {
+		// a wait beyond the horizon never ends inside an execution (a duration multiplied by its unit twice
+		// is 63 years; no deadline of the gateway is longer than hours)
+		t.vt = vsched.AddTimer(due, "timer-beyond-horizon", func() {})
+		if t.vt != nil {
+			t.vt.Never = true
+		}
+		return
+	}
 	if t.f != nil {
 		f := t.f
 		t.vt = vsched.AddTimer(due, "timer-func", func() { vsched.SpawnAtFire("timer-func", f) })
